@@ -35,9 +35,10 @@ func atomOfKind(kind string, p Path) Atom {
 	case "datatype":
 		a.Dt = "http://www.w3.org/2001/XMLSchema#string"
 	case "pattern":
-		a.Dt = "^a[0-9]+$"
+		a.Lit, a.AnchorStart, a.AnchorEnd = "a1", true, true
 	case "uniqueValues":
-		a.Dt = "true"
+		t := true
+		a.UArg = &t
 	case "moreThanProperty", "moreThanOrEqualsToProperty":
 		q := PP("p1", false)
 		a.Other = &q
@@ -56,7 +57,7 @@ func genC07(g *G, n int, out io.Writer, full bool) {
 		id++
 	}
 	// every constraint kind x every path shape (alone, negated, and inside a nested constraint)
-	allKinds := append(append([]string{}, atomKinds...), "pattern", "uniqueValues", "moreThanProperty", "moreThanOrEqualsToProperty")
+	allKinds := append(append([]string{}, atomKinds...), "moreThanProperty", "moreThanOrEqualsToProperty")
 	for _, k := range allKinds {
 		for si, sh := range pathShapes {
 			prof := ProfileSpec{Atoms: []Atom{atomOfKind(k, sh)}, Paths: []Path{sh}}
